@@ -1,0 +1,6 @@
+//go:build verif
+
+package lexer
+
+// VerifBlockStringValue exposes blockStringValue to the verification harness (build tag verif).
+func VerifBlockStringValue(raw string) string { return blockStringValue(raw) }
